@@ -648,6 +648,13 @@ func c08Gen(rng *rand.Rand, tier string, w *bufio.Writer) {
 	fmt.Fprintln(w, "q created asc 0 0 - - 0 &(a~eq~i64:1~)")
 	// corpus 4b: a time window on a key-ordered query (the scan route ignores it, applyTimeRange does not)
 	fmt.Fprintln(w, "q key asc 0 0 1 - 0 &(a~eq~i64:1~)")
+	// corpus 4c: the time index the scan route walks was built, then an update moved CreatedAt; the
+	// accelerated route sorts afresh (the two agree because SaveFunction re-files the record: C07)
+	fmt.Fprintln(w, "q created asc 0 0 - - 0 &(a~eq~i64:1~)")
+	fixed("k2", 9, 0, 0, "{a:i1}", mk("a", I(1)))
+	fixed("k1", 3, 0, 0, "{a:i1}", mk("a", I(1)))
+	fmt.Fprintln(w, "q created asc 0 0 - - 0 &(a~eq~i64:1~)")
+	fmt.Fprintln(w, "q created desc 0 0 - - 0 |(a~eq~i64:1~,&(a~nempty~-~))")
 	// corpus 5: agreement on the sound fragment + mutation after the bucket was built
 	fmt.Fprintln(w, "case 5")
 	fixed("k1", 1, 0, 0, "{a:i1,b:'a'}", mk("a", I(1), "b", S("a")))
@@ -694,8 +701,12 @@ func c08Gen(rng *rand.Rand, tier string, w *bufio.Writer) {
 			case r < 45 || len(seenKey) == 0:
 				k := rng.Intn(nKeys)
 				cT, uT, eT := ts(k)
-				if seenKey[k] {
-					cT, uT, eT = 0, 0, 0 // updates never move a time attribute (that is C07's subject)
+				if seenKey[k] && rng.Intn(3) != 0 {
+					cT, uT, eT = 0, 0, 0
+				} else if seenKey[k] {
+					// an update that moves the timestamps: the scan route then reads an index that was
+					// re-filed incrementally (C07), the accelerated route sorts its candidates afresh
+					cT, uT, eT = 1+rng.Intn(nKeys+2), 1+rng.Intn(nKeys+2), 1+rng.Intn(nKeys+2)
 				}
 				seenKey[k] = true
 				if rng.Intn(14) == 0 {
